@@ -376,7 +376,7 @@ def single_faults(rec, exc_classes=EXC_ALL, reply_kinds=None, names=None):
             yield ('raise_on_%s:%s' % (kind, exc), k), {'io': [{'at': [oid, k], 'kind': 'raise', 'exc': exc}]}
         yield ('unplug@%s' % kind, k), {'io': [{'at': [oid, k], 'kind': 'unplug'}]}
     kinds = reply_kinds or ['drop', 'drop_request', 'err_bang', 'err_named', 'stale_instead', 'stale_front',
-                            'stale_near', 'late26', 'd25', 'd1']
+                            'stale_near', 'stale_case', 'late26', 'd25', 'd1']
     for r, req in enumerate(rec['requests'], start=1):
         name = req_name(req['text'])
         for kd in kinds:
@@ -408,6 +408,12 @@ def reply_fault(oid, r, kd, name, n_lines=2):
         return {'at': at, 'stale': {'text': name + name[0] + 'om,2\n', 'instead': True}}
     if kd == 'glued2':
         return {'at': at, 'stale': {'text': name + name[-1] + name[0] + ',,7\n', 'instead': True}}
+    if kd == 'stale_case':
+        # the request's name in the other letter case: a different name
+        other = name.swapcase()
+        if other == name:
+            other = near_miss(name)
+        return {'at': at, 'stale': {'text': other + ',0394,0300\n', 'instead': True}}
     if kd == 'stale_near':
         return {'at': at, 'stale': {'text': near_miss(name) + '\n', 'instead': True}}
     if kd == 'late26':
